@@ -171,8 +171,8 @@ func (w *world) build(k caseT) (spec *TxSpec, stub *Stub, wireQs []*big.Int, ok 
 	mkQ := func(q *big.Int) *space.Node { return qNode(q, k.enc) }
 	switch k.shape {
 	case shapeInputs:
-		if k.q.Sign() < 0 {
-			return nil, nil, nil, false
+		if k.q.Sign() < 0 || k.q.Cmp(two65) > 0 {
+			return nil, nil, nil, false // negative: no UTxO can fund it; > 2^65: would need more than 4 UTxOs of a valid ledger state
 		}
 		qn := mkQ(k.q)
 		if qn == nil {
